@@ -11,14 +11,13 @@ PROP = dict(
     outside="a second steered clock (harness c43_steer_2 exists, not run to completion); symbolic variances (the code takes sqrt(variance): two symbolic square roots did not finish in 20 min), so the slew/step decision threshold is fixed at 5 ms; steering after a measurement/time progression (matrix arithmetic on symbolic f64), links present (leap vote / root delay selection), clocks returning errors, NaN/infinite estimates (a NaN estimate makes clamp() return NaN: not a reachable state from finite inputs), "
             "|offset| >= 2^62 s (Duration saturates while the non-system-clock filter entry absorbs the unsaturated value); the control law itself (which frequency is wanted) is not part of the property",
     assumptions=[
-        "c43_query asserts the frequency query only when offset and frequency estimates coincide (value and variance); the complement is the finding harness c43_query_kf_frequency_is_offset",
         "Clock contract: max_frequency() finite and >= 0, get_frequency() finite; set_frequency/step_clock succeed",
         "pre-state estimates finite, |offset| < 4.6e18 s, variances = 1e-6",
     ],
     stub_notes=["no stubs; Clock implemented by the harness (records set_frequency/step_clock arguments in ghost statics)"],
     harnesses=[
-        H(ST, "c43", "c43_query", "clock_offset reports offset estimate + standard deviation; unknown clock -> Err; clock_frequency correct where offset==frequency"),
+        H(ST, "c43", "c43_query", "clock_offset reports the offset estimate + its standard deviation, clock_frequency the frequency estimate + its standard deviation (independent symbolic estimates); unknown clock -> Err"),
         H(ST, "c43", "c43_steer", "system clock only: every set_frequency(x) has |x| <= max of that clock; frequency estimate changes by exactly fl(x - current); a step changes the offset estimate by the applied Duration (<= 2^-64 s + one rounding), system clock step moves filter time; other entries bit-identical (350-480 s on a loaded machine)", tier="thorough", timeout_thorough=1800),
-        H(ST, "c43", "c43_query_kf_frequency_is_offset", "FINDING (expected to fail until fixed): KalmanController::clock_frequency returns the offset estimate", timeout=900),
+        H(ST, "c43", "c43_query_distinct", "regression harness for 7d1f9fc: with offset and frequency estimates that differ in value or variance the frequency query returns the frequency entry and its sd (fails on the pre-fix tree, replayed natively)", timeout=900),
     ],
 )
